@@ -6,6 +6,7 @@ package hist
 
 import (
 	"fmt"
+	"os"
 	"strings"
 	"sync"
 	"time"
@@ -42,9 +43,19 @@ type Config struct {
 	// ClientPIDBase: the harness's clients number their own packets from this value + 1 (default 0). Properties that
 	// are not about identifier collisions between the two directions set it high, away from the broker's 1, 2, 3, ...
 	ClientPIDBase uint16 `json:"client_pid_base,omitempty"`
+	// Storage: run the broker with one of the bundled persistence hooks ("bolt", "pebble", "badger", "redis"); the
+	// "restart" action then shuts the broker down and starts a new one on the same store
+	Storage string `json:"storage,omitempty"`
+	// CrashAfter > 0 (with Storage): the storage hook stops receiving events after this many storage writes (a crash
+	// at that write boundary); the run is cut there and jumps to its "restart" action. 0 = never.
+	CrashAfter int `json:"crash_after,omitempty"`
 	// WriteDelayUS: every write the broker makes on a connection takes this many microseconds (slow network)
 	WriteDelayUS int `json:"write_delay_us,omitempty"`
 }
+
+// StorageFactory / StorageCleanup are set by package store (which links the backends); hist itself does not import them.
+var StorageFactory func(kind, dir string) (mqtt.Hook, any, error)
+var StorageCleanup func(dir string)
 
 // LedgerRule is one auth rule of the bundled ledger hook: exact username and password, allow or deny.
 type LedgerRule struct {
@@ -323,6 +334,15 @@ type Run struct {
 	cur       int
 	StartedAt int64
 	HookLog   []HookCall
+	StoreDir  string
+	Crash     *CrashHook // non-nil when the run uses a storage hook
+	Restarts  []int      // steps at which the broker was restarted
+	extra     []mqtt.Hook
+	// crash bookkeeping (see CrashHook)
+	crashMu         sync.Mutex
+	CrashStep       int         // step during which the storage hook was cut off (valid if CrashBytes != nil)
+	CrashBytes      map[int]int // peer id -> bytes the broker had written to it at that instant
+	WritesAtRestart int         // storage writes forwarded before the (first) restart
 }
 
 // TagInfo describes one application message (identified by its payload tag).
@@ -402,6 +422,32 @@ func (c *Config) options() *mqtt.Options {
 
 // NewRun builds the broker for a case.
 func NewRun(c *Case, extraHooks ...mqtt.Hook) *Run {
+	r := &Run{Case: c, Tags: map[int]*TagInfo{}, StartedAt: time.Now().Unix(), extra: extraHooks}
+	if c.Cfg.Storage != "" {
+		if StorageFactory == nil {
+			panic("hist: case uses storage but no backend is linked (import verif/harness/store)")
+		}
+		dir, err := newStoreDir()
+		if err != nil {
+			panic(err)
+		}
+		r.StoreDir = dir
+	}
+	r.B = r.newBroker(c.Cfg.CrashAfter)
+	return r
+}
+
+func newStoreDir() (string, error) {
+	base := os.TempDir()
+	if st, err := os.Stat("/dev/shm"); err == nil && st.IsDir() {
+		base = "/dev/shm"
+	}
+	return os.MkdirTemp(base, "verif-store-")
+}
+
+// newBroker builds a broker for the run's configuration (on the run's store, if any).
+func (r *Run) newBroker(crashAfter int) *sim.Broker {
+	c := r.Case
 	b := sim.NewBroker(c.Cfg.options())
 	b.FreeTeardown = c.Cfg.FreeTeardown
 	b.WriteDelay = time.Duration(c.Cfg.WriteDelayUS) * time.Microsecond
@@ -418,27 +464,82 @@ func NewRun(c *Case, extraHooks ...mqtt.Hook) *Run {
 		_ = b.S.AddHook(new(auth.Hook), &auth.Options{Ledger: l})
 	case "none":
 	}
-	r := &Run{B: b, Case: c, Tags: map[int]*TagInfo{}, StartedAt: time.Now().Unix()}
 	for i := range c.Cfg.Scripts {
 		_ = b.S.AddHook(newScriptHook(r, i, &c.Cfg.Scripts[i]), nil)
 	}
-	for _, h := range extraHooks {
+	for _, h := range r.extra {
 		_ = b.S.AddHook(h, nil)
 	}
-	return r
+	if c.Cfg.Storage != "" {
+		inner, cfg, err := StorageFactory(c.Cfg.Storage, r.StoreDir)
+		if err != nil {
+			panic(err)
+		}
+		ch := &CrashHook{Hook: inner, Budget: crashAfter}
+		ch.onCrash = func() { r.noteCrash() }
+		if err := b.S.AddHook(ch, cfg); err != nil {
+			r.Fatal = "storage hook does not initialise: " + err.Error()
+		}
+		r.Crash = ch
+		if err := b.S.VerifReadStore(); err != nil {
+			r.Fatal = "stored state does not load: " + err.Error()
+		}
+	}
+	return b
+}
+
+// noteCrash records how much every connection had received at the moment the storage hook was cut off.
+func (r *Run) noteCrash() {
+	r.crashMu.Lock()
+	defer r.crashMu.Unlock()
+	r.CrashStep = r.cur
+	r.CrashBytes = map[int]int{}
+	for _, p := range r.Peers {
+		r.CrashBytes[p.ID] = p.Link.Conn.OutLen()
+	}
+}
+
+// BeforeCrash reports whether the i-th packet a connection received had been written completely before the crash
+// instant (always true if there was no crash).
+func (r *Run) BeforeCrash(p *Peer, i int) bool {
+	if r.CrashBytes == nil {
+		return true
+	}
+	lim, ok := r.CrashBytes[p.ID]
+	if !ok {
+		return false // the connection was opened after the crash
+	}
+	n := 0
+	for j := 0; j <= i && j < len(p.GotSize); j++ {
+		n += p.GotSize[j]
+	}
+	return n <= lim
 }
 
 // Execute runs a case to the end (or until it becomes inconclusive) and always shuts the broker's connections down.
 func Execute(c *Case, extraHooks ...mqtt.Hook) *Run {
 	r := NewRun(c, extraHooks...)
-	defer r.B.Shutdown()
+	defer r.finish()
 	for i := range c.Actions {
-		r.Do(c.Actions[i])
 		if r.Fatal != "" {
 			break
 		}
+		r.Do(c.Actions[i])
 	}
 	return r
+}
+
+// finish shuts the broker's connections down and, for runs on a store, closes and removes the store.
+func (r *Run) finish() {
+	r.B.Shutdown()
+	if r.StoreDir != "" {
+		_ = r.B.S.Close() // stops the hooks, which closes the store
+		if StorageCleanup != nil {
+			StorageCleanup(r.StoreDir)
+		} else {
+			_ = os.RemoveAll(r.StoreDir)
+		}
+	}
 }
 
 // live returns the client's connections that are still open, newest first.
@@ -513,7 +614,17 @@ func (r *Run) Do(a Action) *Step {
 	r.Steps = append(r.Steps, s)
 	r.cur = s.I
 	ev0 := r.B.Rec.Len()
+	if r.Crash != nil && a.Kind != "restart" {
+		if _, crashed, _ := r.Crash.State(); crashed {
+			// the broker process "died" at the crash instant: nothing after it is part of the first life
+			s.Skipped = true
+			s.Err = "after the crash"
+			return s
+		}
+	}
 	switch a.Kind {
+	case "restart":
+		r.doRestart(s)
 	case "connect":
 		r.doConnect(s, &a)
 	case "subscribe", "unsubscribe":
@@ -742,6 +853,33 @@ func (r *Run) Do(a Action) *Step {
 	}
 	s.Info.ActualRetained = int64(r.B.S.Topics.Retained.Len())
 	return s
+}
+
+// doRestart ends the broker's first life and starts a new broker on the same store: every open connection is dropped
+// (as when the process dies or the listeners close), the handlers finish, Server.Close stops the hooks (closing
+// the store), and a fresh server with a fresh hook instance loads what the store holds.
+func (r *Run) doRestart(s *Step) {
+	if r.StoreDir == "" {
+		s.Skipped = true
+		return
+	}
+	for _, p := range r.Peers {
+		if p.ClosedAt < 0 {
+			p.ClosedByHarness = true
+			p.Link.Drop()
+		}
+	}
+	r.settle(s)
+	if r.Fatal != "" {
+		return
+	}
+	if r.Crash != nil && len(r.Restarts) == 0 {
+		r.WritesAtRestart, _, _ = r.Crash.State()
+	}
+	r.B.Shutdown()
+	_ = r.B.S.Close()
+	r.Restarts = append(r.Restarts, s.I)
+	r.B = r.newBroker(0)
 }
 
 func (r *Run) doConnect(s *Step, a *Action) {
